@@ -57,6 +57,7 @@ func BuildConfig(rp *plan.RouterPlan, pki *peers.PKI, dir string) (*router.Confi
 		sc := router.ServerConfig{Tag: s.Tag, Protocol: s.Proto, Listen: s.Listen, IdleTimeout: s.IdleTimeout}
 		sc.Tcp.MaxConcurrentQueries = s.MaxConcurrent
 		sc.Udp.Threads = s.UDPThreads
+		sc.Udp.MultiRoutes = s.MultiRoutes
 		sc.Http.ClientAddrHeader = s.ClientAddrHeader
 		sc.Quic.MaxStreams = s.QuicMaxStreams
 		switch s.Proto {
